@@ -9,6 +9,6 @@ CONSTANTS
   Cnt <- CntThorough
   NCnt <- NCntThorough
   Obs <- ObsEmit
-INVARIANTS TypeOK QueriesInRange CmpLaw SpliceLaw SubLaw HugeLaw ShapeLaw
+INVARIANTS TypeOK QueriesInRange CmpLaw SpliceLaw SubLaw HugeLaw GapLaw ShapeLaw
 PROPERTY Independence
 CHECK_DEADLOCK FALSE
